@@ -294,7 +294,12 @@ namespace options
             }
         }
 
-        s << "usage: " << app_name_;
+        // The synopsis gets laid out in a stream of its own, as the wrapping uses the write position
+        // of the stream as the current column. That neither works with prior content in s nor with
+        // streams, which can't tell their position, e.g., std::cout.
+        std::stringstream head;
+
+        head << "usage: " << app_name_;
 
         std::stringstream usage;
 
@@ -334,10 +339,10 @@ namespace options
         {
             out = out.substr(1);
 
-            nitro::io::terminal::format_padded(s, out, 8 + app_name_.size(), 80);
+            nitro::io::terminal::format_padded(head, out, 8 + app_name_.size(), 80);
         }
 
-        s << std::endl << std::endl;
+        s << head.str() << std::endl << std::endl;
 
         if (!about_.empty())
         {
